@@ -361,6 +361,15 @@ func unwrapCell(v ssa.Value) ssa.Value {
 		}
 		a, ok := u.X.(*ssa.Alloc)
 		if !ok {
+			// an element of a local array literal (`pair := [2]string{k, val}; … pair[0]`): its single store
+			if ia, isIA := u.X.(*ssa.IndexAddr); isIA {
+				if arr, isA := ia.X.(*ssa.Alloc); isA {
+					if val, okE := localArrayElem(arr, ia.Index); okE {
+						v = val
+						continue
+					}
+				}
+			}
 			return v
 		}
 		st := cellStores(a)
@@ -1104,6 +1113,35 @@ func flowRoots(v ssa.Value, through func(c *ssa.Call) []ssa.Value) []ssa.Value {
 						return
 					}
 				}
+				// a field of a local struct (`got := f(); … got.conn`): what was stored into that field, and what was
+				// stored into the struct as a whole (the carrier: a call, another local struct)
+				if fa, ok := x.X.(*ssa.FieldAddr); ok {
+					if a, ok := fa.X.(*ssa.Alloc); ok {
+						if fs, ws, okc := localStructStores(a, fa.Field); okc && len(fs)+len(ws) > 0 {
+							for _, s := range fs {
+								walk(s.Val)
+							}
+							for _, s := range ws {
+								if ld, isLoad := s.Val.(*ssa.UnOp); isLoad && ld.Op == token.MUL {
+									if b, isA := ld.X.(*ssa.Alloc); isA {
+										// whole copy of another local struct: the same field of that one
+										if fs2, ws2, ok2 := localStructStores(b, fa.Field); ok2 {
+											for _, s2 := range fs2 {
+												walk(s2.Val)
+											}
+											for _, s2 := range ws2 {
+												walk(s2.Val)
+											}
+											continue
+										}
+									}
+								}
+								walk(s.Val)
+							}
+							return
+						}
+					}
+				}
 			}
 			roots = append(roots, v)
 		case *ssa.Call:
@@ -1166,4 +1204,316 @@ func results(r *ssa.Return) []ssa.Value {
 		}
 	}
 	return out
+}
+
+// feasiblePaths enumerates the acyclic block paths from `from` to a block accepted by `stop` (the path
+// ends there). Branches are pruned when their outcome is fixed by the path itself: the same condition
+// decided earlier on the path, or a condition that is a phi of boolean constants (a flag such as
+// `allOk := true; for … { if bad { allOk = false; break } }; if allOk {…}`) whose value follows from the
+// predecessor through which the phi's block was entered.
+func feasiblePaths(from *ssa.BasicBlock, stop func(*ssa.BasicBlock) bool, limit int) ([][]*ssa.BasicBlock, bool) {
+	var out [][]*ssa.BasicBlock
+	complete := true
+	var path []*ssa.BasicBlock
+	onPath := map[*ssa.BasicBlock]bool{}
+	facts := map[string]bool{}
+	phiValue := func(ph *ssa.Phi) (bool, bool) {
+		pb := ph.Block()
+		for i := len(path) - 1; i > 0; i-- {
+			if path[i] == pb {
+				for k, pr := range pb.Preds {
+					if pr == path[i-1] {
+						if cst, ok := ph.Edges[k].(*ssa.Const); ok && cst.Value != nil {
+							return constBoolValue(cst), true
+						}
+						if inner, ok := ph.Edges[k].(*ssa.Phi); ok {
+							_ = inner
+						}
+						return false, false
+					}
+				}
+			}
+		}
+		return false, false
+	}
+	var walk func(b *ssa.BasicBlock)
+	walk = func(b *ssa.BasicBlock) {
+		if len(out) >= limit {
+			complete = false
+			return
+		}
+		if onPath[b] {
+			return
+		}
+		path = append(path, b)
+		onPath[b] = true
+		defer func() { path = path[:len(path)-1]; delete(onPath, b) }()
+		if len(path) > 1 && stop(b) {
+			out = append(out, append([]*ssa.BasicBlock{}, path...))
+			return
+		}
+		last := b.Instrs[len(b.Instrs)-1]
+		if ifi, ok := last.(*ssa.If); ok && len(b.Succs) == 2 {
+			cond, flip := ifi.Cond, false
+			for {
+				u, ok := cond.(*ssa.UnOp)
+				if !ok || u.Op != token.NOT {
+					break
+				}
+				cond, flip = u.X, !flip
+			}
+			var fixed, known bool
+			if ph, ok := cond.(*ssa.Phi); ok {
+				fixed, known = phiValue(ph)
+			}
+			key := canonCondKey(cond)
+			for i, s := range b.Succs {
+				truth := (i == 0) != flip
+				if known && fixed != truth {
+					continue
+				}
+				if old, had := facts[key]; had && old != truth {
+					continue
+				}
+				_, had := facts[key]
+				facts[key] = truth
+				walk(s)
+				if !had {
+					delete(facts, key)
+				}
+			}
+			return
+		}
+		for _, s := range b.Succs {
+			walk(s)
+		}
+	}
+	walk(from)
+	return out, complete
+}
+
+func constBoolValue(c *ssa.Const) bool { return c.Value != nil && c.Value.String() == "true" }
+
+// feasiblePathsVia: the feasible acyclic paths that start with the edge first→second and end at a block accepted by stop.
+func feasiblePathsVia(first, second *ssa.BasicBlock, stop func(*ssa.BasicBlock) bool, limit int) ([][]*ssa.BasicBlock, bool) {
+	all, complete := feasiblePaths(first, stop, limit*4)
+	var out [][]*ssa.BasicBlock
+	for _, pa := range all {
+		if len(pa) > 1 && pa[1] == second {
+			out = append(out, pa)
+		}
+	}
+	return out, complete
+}
+
+// valueOnPath resolves v along a block path: a phi is replaced by the edge value of the predecessor through
+// which the path entered the phi's block (repeatedly).
+func valueOnPath(v ssa.Value, path []*ssa.BasicBlock) ssa.Value {
+	for i := 0; i < 8; i++ {
+		ph, ok := v.(*ssa.Phi)
+		if !ok {
+			return v
+		}
+		pb := ph.Block()
+		found := false
+		for k := len(path) - 1; k > 0 && !found; k-- {
+			if path[k] == pb {
+				for e, pr := range pb.Preds {
+					if pr == path[k-1] {
+						v = ph.Edges[e]
+						found = true
+						break
+					}
+				}
+			}
+		}
+		if !found {
+			return v
+		}
+	}
+	return v
+}
+
+// canonCondKey renders a branch condition canonically: `a > b` and `b < a` (likewise >= / <=) get the same key, so a path
+// that decides one and later the other the opposite way is recognised as infeasible.
+func canonCondKey(cond ssa.Value) string {
+	if bo, ok := cond.(*ssa.BinOp); ok {
+		switch bo.Op {
+		case token.GTR:
+			return "(" + expr(bo.Y) + " < " + expr(bo.X) + ")"
+		case token.GEQ:
+			return "(" + expr(bo.Y) + " <= " + expr(bo.X) + ")"
+		case token.LSS:
+			return "(" + expr(bo.X) + " < " + expr(bo.Y) + ")"
+		case token.LEQ:
+			return "(" + expr(bo.X) + " <= " + expr(bo.Y) + ")"
+		}
+	}
+	return expr(cond)
+}
+
+// localStructStores: for a local (non-escaping) struct allocation a, the stores into its field `field` and the
+// stores of a whole struct value into a. ok is false when a is used in any other way than through field addresses
+// that are only loaded/stored and whole loads/stores (then nothing can be said about its contents).
+func localStructStores(a *ssa.Alloc, field int) (fieldStores, wholeStores []*ssa.Store, ok bool) {
+	if _, isStruct := a.Type().Underlying().(*types.Pointer).Elem().Underlying().(*types.Struct); !isStruct {
+		return nil, nil, false
+	}
+	refs := a.Referrers()
+	if refs == nil {
+		return nil, nil, false
+	}
+	for _, r := range *refs {
+		switch x := r.(type) {
+		case *ssa.Store:
+			if x.Addr != ssa.Value(a) {
+				return nil, nil, false // the address itself is stored somewhere
+			}
+			wholeStores = append(wholeStores, x)
+		case *ssa.UnOp:
+			if x.Op != token.MUL {
+				return nil, nil, false
+			}
+		case *ssa.FieldAddr:
+			frefs := x.Referrers()
+			if frefs == nil {
+				return nil, nil, false
+			}
+			for _, fr := range *frefs {
+				switch y := fr.(type) {
+				case *ssa.Store:
+					if y.Addr != ssa.Value(x) {
+						return nil, nil, false
+					}
+					if x.Field == field {
+						fieldStores = append(fieldStores, y)
+					}
+				case *ssa.UnOp:
+					if y.Op != token.MUL {
+						return nil, nil, false
+					}
+				case *ssa.DebugRef:
+				default:
+					return nil, nil, false
+				}
+			}
+		case *ssa.DebugRef:
+		default:
+			return nil, nil, false
+		}
+	}
+	return fieldStores, wholeStores, true
+}
+
+// retComponents returns the components of a return: the results of a multi-result function, or - for a function
+// that returns one local struct built in place (`return T{a: x, b: y}`) - the value of each field at the return
+// (the store that dominates it; the zero value when the literal leaves the field out).
+func retComponents(r *ssa.Return) []ssa.Value {
+	rs := results(r)
+	if len(rs) != 1 {
+		return rs
+	}
+	ld, ok := rs[0].(*ssa.UnOp)
+	if !ok || ld.Op != token.MUL {
+		return rs
+	}
+	a, ok := ld.X.(*ssa.Alloc)
+	if !ok {
+		return rs
+	}
+	st, ok := a.Type().Underlying().(*types.Pointer).Elem().Underlying().(*types.Struct)
+	if !ok {
+		return rs
+	}
+	out := make([]ssa.Value, st.NumFields())
+	for i := 0; i < st.NumFields(); i++ {
+		fs, ws, okc := localStructStores(a, i)
+		if !okc || len(ws) > 0 {
+			return rs
+		}
+		var last *ssa.Store
+		for _, s := range fs {
+			if dominatesInstr(s, ld) && (last == nil || dominatesInstr(last, s)) {
+				last = s
+			}
+		}
+		if last != nil {
+			out[i] = last.Val
+		} else if len(fs) == 0 {
+			out[i] = zeroConst(st.Field(i).Type())
+		} else {
+			return rs // set on some paths only
+		}
+	}
+	return out
+}
+
+func zeroConst(t types.Type) ssa.Value {
+	switch u := t.Underlying().(type) {
+	case *types.Basic:
+		switch {
+		case u.Info()&types.IsBoolean != 0:
+			return ssa.NewConst(constant.MakeBool(false), t)
+		case u.Info()&types.IsString != 0:
+			return ssa.NewConst(constant.MakeString(""), t)
+		case u.Info()&types.IsNumeric != 0:
+			return ssa.NewConst(constant.MakeInt64(0), t)
+		}
+	}
+	return ssa.NewConst(nil, t)
+}
+
+// localArrayElem: arr is a local array whose elements are only written through constant indices and never through
+// an escaping pointer; returns the single value stored at constant index idx.
+func localArrayElem(arr *ssa.Alloc, idx ssa.Value) (ssa.Value, bool) {
+	want, ok := constInt(idx)
+	if !ok {
+		return nil, false
+	}
+	if _, isArr := arr.Type().Underlying().(*types.Pointer).Elem().Underlying().(*types.Array); !isArr {
+		return nil, false
+	}
+	refs := arr.Referrers()
+	if refs == nil {
+		return nil, false
+	}
+	var val ssa.Value
+	n := 0
+	for _, r := range *refs {
+		switch x := r.(type) {
+		case *ssa.IndexAddr:
+			k, isK := constInt(x.Index)
+			er := x.Referrers()
+			if er == nil {
+				return nil, false
+			}
+			for _, rr := range *er {
+				switch y := rr.(type) {
+				case *ssa.Store:
+					if y.Addr != ssa.Value(x) || !isK {
+						return nil, false
+					}
+					if k == want {
+						val = y.Val
+						n++
+					}
+				case *ssa.UnOp:
+				case *ssa.DebugRef:
+				default:
+					return nil, false
+				}
+			}
+		case *ssa.UnOp, *ssa.DebugRef:
+		case *ssa.Slice:
+			return nil, false
+		case *ssa.Store:
+			return nil, false
+		default:
+			return nil, false
+		}
+	}
+	if n != 1 {
+		return nil, false
+	}
+	return val, true
 }
